@@ -20,10 +20,10 @@ func init() {
 		Rules: map[string]string{
 			"R1":  "label table well-formed for every row",
 			"R2":  "rotation constant = index of bb; heads-up row; rotate helper shape",
-			"R3":  "who-may-write TablePlayerState.Positions",
+			"R3":  "who-may-write TablePlayerState.Positions; the open step labels the players exactly once, after the rotation, on every success path",
 			"R4":  "labels forwarded to the hand engine; dealer label added to entry 0 only if missing",
 			"R5":  "next-BB scan shape, call-site arguments, store at settlement, reset at continue",
-			"R6":  "seat publication pairing (no cross-wiring)",
+			"R6":  "seat publication pairing (no cross-wiring); the three seat getters return their own field; the seat list from the dealer is one full circle of SeatData from the dealer seat",
 			"R7":  "the dead dealer/SB label skip is not conditioned on the seat being occupied",
 			"R11": "position updater, every path of both loops: a seat is a position slot iff it is the dealer/SB/BB seat or holds an eligible player (never counted twice, count from 0, full circle from the dealer seat, table rows used for > 2 slots); the head label is given iff the seat's player is eligible and known, consumed without being given iff the seat has no eligible player, the head is dealer/sb and the seat is the dealer/SB seat; one circle from the BB seat; the loop is left when no label remains",
 			"R10": "entry 0 of the hand's player list: the dealer's seat when a dealt-in player holds it, else the nearest active seat counter-clockwise from the SB seat (held) or the BB seat; seat-map entries skipped only when unset (shared with C02.R4)",
